@@ -10,6 +10,9 @@
 #include "stir/DynamicDiscretisedDensity.h"
 #include "stir/IO/InterfileDynamicDiscretisedDensityOutputFileFormat.h"
 #include "stir/IO/MultiDynamicDiscretisedDensityOutputFileFormat.h"
+#include "stir/modelling/ParametricDiscretisedDensity.h"
+#include "stir/IO/InterfileParametricDiscretisedDensityOutputFileFormat.h"
+#include "stir/IO/MultiParametricDiscretisedDensityOutputFileFormat.h"
 #include "stir/TimeFrameDefinitions.h"
 #include "stir/PatientPosition.h"
 #include "stir/Radionuclide.h"
@@ -631,6 +634,111 @@ op_dynamic(const Plan& p, const Op& op, sim::Result& res)
   sim::fired("TRUNC", ntr);
 }
 
+// parametric images (two kinetic parameters per voxel): Interfile (one header, parameters concatenated) and Multi containers
+void
+op_parametric(const Plan& p, const Op& op, sim::Result& res)
+{
+  Case c = make_case(p);
+  res.cls = op.kind;
+  const int nparams = (int)ParametricVoxelsOnCartesianGrid::get_num_params();
+  sim::Rng r(sim::mix(p.seed, 47));
+  ParametricVoxelsOnCartesianGrid par(ParametricVoxelsOnCartesianGridBaseType(c.image->get_index_range(), c.image->get_origin(), c.image->get_grid_spacing()));
+  par.set_exam_info(c.image->get_exam_info());
+  std::vector<shared_ptr<VoxelsOnCartesianGrid<float>>> maps;
+  for (int k = 1; k <= nparams; ++k)
+    {
+      shared_ptr<VoxelsOnCartesianGrid<float>> m(c.image->clone());
+      for (auto it = m->begin_all(); it != m->end_all(); ++it)
+        *it = (float)(r.below(2000)) * (c.is_unsigned() ? 1.f : (r.chance(0.3) ? -1.f : 1.f));
+      par.update_parametric_image(*m, (unsigned)k);
+      maps.push_back(m);
+    }
+  const bool multi = op.kind == "parametric_multi";
+  std::string fname = sim::scratch_dir() + "/par";
+  shared_ptr<OutputFileFormat<ParametricVoxelsOnCartesianGrid>> fmt;
+  if (multi)
+    fmt.reset(new MultiParametricDiscretisedDensityOutputFileFormat<ParametricVoxelsOnCartesianGridBaseType>(c.type, c.bo));
+  else
+    fmt.reset(new InterfileParametricDiscretisedDensityOutputFileFormat<ParametricVoxelsOnCartesianGridBaseType>(c.type, c.bo));
+  if (fmt->write_to_file(fname, par) != Succeeded::yes)
+    sim::fail("parametric:write_failed", "writing a parametric image (%s) reported failure", multi ? "Multi" : "Interfile");
+  auto read_par = [&]() -> shared_ptr<ParametricVoxelsOnCartesianGrid> {
+    try
+      {
+        return shared_ptr<ParametricVoxelsOnCartesianGrid>(ParametricVoxelsOnCartesianGrid::read_from_file(fname));
+      }
+    catch (const sim::Violation&)
+      {
+        throw;
+      }
+    catch (...)
+      {
+        return shared_ptr<ParametricVoxelsOnCartesianGrid>();
+      }
+  };
+  auto check_equal = [&](const ParametricVoxelsOnCartesianGrid& got, const char* where) {
+    for (int k = 1; k <= nparams; ++k)
+      {
+        Case ck = c;
+        ck.image = maps[(size_t)(k - 1)];
+        const ParametricVoxelsOnCartesianGrid::SingleDiscretisedDensityType single = got.construct_single_density((unsigned)k);
+        try
+          {
+            compare_images(ck, single, where, true);
+          }
+        catch (const sim::Violation& v)
+          {
+            throw sim::Violation{ std::string("parametric:") + v.oracle, "parameter " + std::to_string(k) + ": " + v.detail };
+          }
+      }
+  };
+  shared_ptr<ParametricVoxelsOnCartesianGrid> back = read_par();
+  if (!back)
+    sim::fail("parametric:read_failed", "reading back a parametric image (%s, type %s) failed", multi ? "Multi" : "Interfile", tname(c.type));
+  check_equal(*back, multi ? "multi" : "interfile");
+  sim::probe("parametric_round_trip");
+  // truncate every data file of the container at a set of lengths incl. the boundary between the parameters
+  std::vector<std::string> datafiles;
+  {
+    sim::io::Bypass b;
+    DIR* d = opendir(sim::scratch_dir().c_str());
+    while (dirent* e = readdir(d))
+      {
+        std::string n = e->d_name;
+        if (n.size() > 2 && n.substr(n.size() - 2) == ".v")
+          datafiles.push_back(sim::scratch_dir() + "/" + n);
+      }
+    closedir(d);
+    std::sort(datafiles.begin(), datafiles.end());
+  }
+  long ntr = 0;
+  for (const std::string& df : datafiles)
+    {
+      const std::vector<unsigned char> data = slurp(df);
+      std::vector<size_t> lens;
+      const size_t step = std::max<size_t>(1, data.size() / 48);
+      for (size_t l = 0; l < data.size(); l += step)
+        lens.push_back(l);
+      if (data.size() >= 2)
+        {
+          lens.push_back(data.size() / 2);
+          lens.push_back(data.size() / 2 - 1);
+          lens.push_back(data.size() - 1);
+        }
+      for (size_t len : lens)
+        {
+          spit(df, data.data(), len);
+          shared_ptr<ParametricVoxelsOnCartesianGrid> got = read_par();
+          ++ntr;
+          if (got)
+            sim::fail("parametric:truncated_member_accepted", "member %s truncated to %zu of %zu bytes was returned as an image",
+                      df.substr(df.rfind('/') + 1).c_str(), len, data.size());
+        }
+      spit(df, data.data(), data.size());
+    }
+  sim::fired("TRUNC", ntr);
+}
+
 void
 run(const Plan& p, sim::Result& res)
 {
@@ -641,6 +749,8 @@ run(const Plan& p, sim::Result& res)
       sim::logf("op %s", op.kind.c_str());
       if (op.kind.compare(0, 7, "dynamic") == 0)
         op_dynamic(p, op, res);
+      else if (op.kind.compare(0, 10, "parametric") == 0)
+        op_parametric(p, op, res);
       else
         op_single(p, op, res);
     }
@@ -674,9 +784,10 @@ gen(uint64_t seed, const std::string& tier, long idx)
   p.cfg["dt"] = r.range(1, 3000);
   p.cfg["patpos"] = r.range(0, 7);
   p.cfg["calib"] = r.chance(0.5) ? r.range(1, 9) : 0;
-  static const char* kinds[] = { "round_trip", "transparent", "truncate", "write_error", "crash", "read_error", "dynamic_interfile", "dynamic_multi" };
+  static const char* kinds[] = { "round_trip", "transparent", "truncate", "write_error", "crash", "read_error", "dynamic_interfile", "dynamic_multi", "parametric_interfile",
+                                 "parametric_multi" };
   Op o;
-  o.kind = kinds[idx % 8];
+  o.kind = kinds[idx % 10];
   for (int j = 0; j < 4; ++j)
     o.a.push_back((long)r.below(100000));
   p.ops.push_back(o);
